@@ -154,6 +154,109 @@ def run_recursion(chk: Check, prog: Program) -> None:
                 chk.info("C10.R3", f"C10.R3:edge:{p}->{q}", f"{p} -> {q}")
 
 
+def run_helper_recursion(chk: Check, prog: Program) -> None:
+    """Besides its own productions, the parser must not reach a recursive function: the constructors and link primitives
+    it calls while building a flat (un-nested) chain of thousands of operands would otherwise recurse once per operand
+    already in the tree.  Call graph by resolved names (methods by name over every class of the package, which
+    over-approximates the receivers); productions are excluded (their cycles are C10.R3's)."""
+    chk.rule("C10.R7", "no recursive helper is reachable from the parser's productions (stack depth must not grow with the "
+             "length of flat input)", minimum=5)
+    by_method: Dict[str, list] = {}
+    by_func: Dict[str, list] = {}
+    for f in prog.all_functions():
+        (by_method if f.cls is not None else by_func).setdefault(f.name, []).append(f)
+
+    def callees(f) -> Set[str]:
+        out: Set[str] = set()
+        for n in ast.walk(f.node):
+            if not isinstance(n, ast.Call):
+                continue
+            fn = n.func
+            if isinstance(fn, ast.Attribute):
+                recv = fn.value
+                cands = by_method.get(fn.attr, [])
+                if isinstance(recv, ast.Call) and isinstance(recv.func, ast.Name) and recv.func.id == "super" and f.cls is not None:
+                    m = prog.find_method(f.cls.name, fn.attr, after=f.cls.name)
+                    cands = [m] if m is not None else []
+                elif isinstance(recv, ast.Name) and recv.id == "self" and f.cls is not None:
+                    # the receiver is an instance of f's class or of one of its subclasses
+                    cands = [g for g in cands if prog.is_subclass(g.cls.name, f.cls.name) or prog.is_subclass(f.cls.name, g.cls.name)]
+                    own = prog.find_method(f.cls.name, fn.attr)
+                    if own is not None:
+                        cands = [g for g in cands if prog.is_subclass(g.cls.name, f.cls.name)] + [own]
+                for g in cands:
+                    out.add(g.where)
+            elif isinstance(fn, ast.Name):
+                r = prog.resolve_name(f.module, fn.id)
+                if r and r[0] == "func":
+                    out.add(r[1].where)
+                elif r and r[0] == "class":
+                    for c in prog.mro(r[1]):
+                        for mname in ("__init__", "__post_init__"):
+                            if mname in c.methods:
+                                out.add(c.methods[mname].where)
+        return out
+    funcs = {f.where: f for f in prog.all_functions()}
+    graph = {w: callees(f) & set(funcs) for w, f in funcs.items()}
+    parser_cls = prog.cls("ExpressionParser")
+    prods = {m.where for n, m in parser_cls.methods.items()}
+    # reachable from the parser's methods, not passing through error reporting (raise statements end the parse)
+    seen: Set[str] = set()
+    stack = list(prods)
+    while stack:
+        w = stack.pop()
+        if w in seen:
+            continue
+        seen.add(w)
+        stack.extend(graph[w])
+    helpers = sorted(seen - prods)
+    # strongly connected components among the helpers (Tarjan)
+    index: Dict[str, int] = {}
+    low: Dict[str, int] = {}
+    on: Set[str] = set()
+    st: List[str] = []
+    sccs: List[List[str]] = []
+
+    def strong(v: str):
+        index[v] = low[v] = len(index)
+        st.append(v)
+        on.add(v)
+        for w in graph[v]:
+            if w not in helpers_set:
+                continue
+            if w not in index:
+                strong(w)
+                low[v] = min(low[v], low[w])
+            elif w in on:
+                low[v] = min(low[v], index[w])
+        if low[v] == index[v]:
+            comp = []
+            while True:
+                w = st.pop()
+                on.discard(w)
+                comp.append(w)
+                if w == v:
+                    break
+            sccs.append(comp)
+    helpers_set = set(helpers)
+    import sys
+    sys.setrecursionlimit(max(10000, sys.getrecursionlimit()))
+    for v in helpers:
+        if v not in index:
+            strong(v)
+    recursive = [c for c in sccs if len(c) > 1 or c[0] in graph[c[0]]]
+    for c in recursive:
+        name = " -> ".join(sorted(x.split(":")[-1] for x in c))
+        chk.fail("C10.R7", f"C10.R7:recursive-helper:{sorted(c)[0].split(':')[-1]}", f"recursive function(s) reachable from the parser: {name}",
+                 "the parser builds flat chains left-deep, one node per operand: a helper that walks or re-walks the tree "
+                 "recursively makes the stack depth grow with the length of un-nested input (RecursionError near 1000 terms)",
+                 witness={"cycle": sorted(c)}, where=sorted(c)[0])
+    rec_set = {x for c in recursive for x in c}
+    for h in helpers:
+        if h not in rec_set:
+            chk.ok("C10.R7", "C10.R7", f"{h.split(':')[-1]} (reachable from the parser) is not recursive", where=h)
+
+
 def run_sticky(chk: Check, scen: List[dict], pid: str = "C10", rid: str = "R4",
                names=("parse;parse", "parse;parse;parse", "parse;clear;parse", "tokenize;parse", "tokenize;consume;parse",
                       "parse(other);parse")) -> None:
@@ -255,6 +358,7 @@ def run(chk: Check) -> None:
     run_contract(chk, recs)
     run_near_misses(chk, (6,) if chk.tier == "quick" else (6, 7))
     run_recursion(chk, prog)
+    run_helper_recursion(chk, prog)
     run_function_tokens(chk, prog)
     scen = analyse_scenarios(str(REPO), 2 if chk.tier == "quick" else 3)
     chk.analysed["scenario_paths"] = len(scen)
